@@ -376,6 +376,9 @@ def positions_of(w, u):
 
 def gen_op(rng, w):
     sh = w.shadow
+    _pend = w.__dict__.setdefault("pending", [])
+    if _pend:
+        return _pend.pop(0)
     users = list(range(1, NUSERS + 1))
     c = rng.choice(users)
     roll = rng.random()
@@ -426,7 +429,13 @@ def gen_op(rng, w):
             return ["Withdraw", who, rng.choice([0, 1, rem, rem + 1, rem // 2, rng.randint(0, rem + 2),
                                                  rem + max(1, paid), rem + max(1, paid // 2), max(0, rem - 1)])]
         if kind < 0.72:
-            return ["SetApr", who, rng.choice([0, 1, 500, 10000, 10 ** 9])]
+            cur = max(1, sh["apr"])
+            val = rng.choice([0, 1, 500, 10000, 10 ** 9, max(1, cur // 2), cur * 2, cur + 1, cur * 10, max(1, cur // 10)])
+            if who == OWNER and rng.random() < 0.6:
+                # let blocks pass first: the elapsed blocks must be settled under the OLD cap (never retroactive)
+                _pend.append(["SetApr", OWNER, val])
+                return ["Time", rng.choice([1, 10, 100, 1000]), 0]
+            return ["SetApr", who, val]
         if kind < 0.8:
             return ["SetMinUnbond", who, rng.choice([0, 1, 5, 30, 31])]
         if kind < 0.86:
